@@ -61,7 +61,8 @@ def hash (P : Params) (v : List Nat) : Option (List Nat) :=
 /-! line protocol
 `C14 sis|sism <pkg> <seed> <logDeg> <logBound> <maxNb> <A: rows ';', entries ','> <v0,v1,…> …`
 answer per input: `h0,…,h_{d-1}` | `err`; `err:new` for the whole line when `NewRSis` refuses the parameters.
-`sis`: the Go result as is; `sism`: the Go result multiplied by the Montgomery constant R = 2^(64·limbs) (see findings). -/
+`sis`: the Go result as is; `sism`: the Go result multiplied by the Montgomery constant R = 2^(64·limbs) (see findings);
+`sisd`: as `sis`, into a dirty, re-used output vector (`handleDirty`). -/
 
 /-- (package, field, two-adicity of the field) -/
 def pkgs : List (String × String × Nat) :=
@@ -106,5 +107,14 @@ def handleWith (raw : Bool) (args : List String) : String :=
   | _ => "bad-op"
 
 def handle (args : List String) : String := handleWith false args
+
+/-- `C14 sisd … <v>[/g|/f] …`: every input is hashed into ONE output vector that the caller never clears (it holds garbage,
+then the previous digest; `/g`, `/f`: the caller refills it with garbage first). `res` is an output parameter of
+`RSis.Hash(v, res)`: the digest is `hash P v`, a function of the input alone, so the answers are those of `sis`. -/
+def handleDirty (args : List String) : String :=
+  match args with
+  | pkg :: seed :: ld :: lbits :: mx :: a :: rest =>
+    handleWith true (pkg :: seed :: ld :: lbits :: mx :: a :: rest.map fun t => (t.splitOn "/").headD "")
+  | _ => "bad-op"
 
 end GV.SIS
